@@ -31,6 +31,7 @@ type Node struct {
 	Cb     int               `json:"cb,omitempty"`    // callback id (Func variants)
 	GoVal  interface{}       `json:"-"`               // literal value for Lit() (corpus translator); V holds its rendered text
 	IsRune bool              `json:"-"`
+	Real   bool              `json:"-"` // own-test dumps: Open/Close/Sep/Multi are the fields of the real Group (written as ropen ...)
 }
 
 // Builder interprets trees. Form selects the API form per node (C14); Callback, when set,
@@ -366,6 +367,9 @@ func (n *Node) MarshalJSON() ([]byte, error) {
 		r = Rec{"k": "grp", "name": n.Name, "items": items}
 		if n.Name == "custom" {
 			r["open"], r["close"], r["sep"], r["multi"] = n.Open, n.Close, n.Sep, n.Multi
+		}
+		if n.Real {
+			r["ropen"], r["rclose"], r["rsep"], r["rmulti"] = n.Open, n.Close, n.Sep, n.Multi
 		}
 	case "dict":
 		o := n.Order
